@@ -53,6 +53,10 @@ func newWorldA(r *Run) *worldA {
 	if n < 1 {
 		n = 1
 	}
+	return newWorldAN(r, n)
+}
+
+func newWorldAN(r *Run, n int) *worldA {
 	w := &worldA{r: r, events: map[string][]byte{}, acked: map[uint64]*balloon.Snapshot{}}
 	w.e = newEnv(r, n)
 	w.e.onApplied = w.checkApplied
